@@ -23,7 +23,7 @@ ASSUMPTIONS = ["theorems cover the CAB container's buffers; decoder-internal bou
                "memory model: one C object = one bounded region"]
 RULE = ("*.malformed: 4-6 mutations (bit flips, byte sets, truncations, splices; biased to headers) of generated well-formed archives of all five formats, "
         "x parameter settings (SALVAGE/FIXMSZIP/DECOMPBUF/SEARCHBUF) x fill byte in {00,55,aa,ff}; fixtures incl. the shipped crashers; guard-directed constructions "
-        "(short/non-KWAJ files, CHM density>=32, salvage-mode dangling merge pointer, block sizes at the limits); non-trivial = the archive differs from the valid original; distinct by bytes+params")
+        "(short/non-KWAJ files, CHM density>=32, salvage-mode dangling merge pointer, block sizes at the limits, MSZIP blocks inflating past the 32 KiB window through every kind of token); non-trivial = the archive differs from the valid original; distinct by bytes+params")
 
 FILLS = ["00", "55", "aa", "ff"]
 
@@ -54,9 +54,45 @@ def directed(rng):
             yield [f"file a.cab {cab.hex()}", "new cab", f"param i0 SALVAGE {salv}", "open i0 a.cab", "extract i0 h0 0 o0", "close i0 h0", "destroy i0"], \
                   dict(family="cab.blocksize", size=size, salvage=salv)
 
+def mszip_overrun(rng):
+    """MSZIP blocks that try to inflate past the 32768-byte window, the bytes crossing the boundary coming
+    from each kind of token: literal, short match (byte loop), long match (fast loop) with the source
+    ahead / behind / overlapping the destination / wrapping.  All must be answered with an error."""
+    from vgen import deflate
+    def fill_to(P):
+        toks = [("L", 0x61)]; pos = 1
+        while P - pos >= 258 + 3: toks.append(("M", 1, 258)); pos += 258
+        while pos < P:
+            ln = min(258, P - pos)
+            if P - pos - ln in (1, 2): ln -= 3
+            if ln < 3: toks += [("L", 0x62)] * ln; pos += ln
+            else: toks.append(("M", rng.choice([1, 2, 7]), ln)); pos += ln
+        return toks
+    crossings = [("literal", 32768, [("L", 0x63)]),
+                 ("short-match", 32765, [("M", 1, 9)]), ("short-match-far", 32765, [("M", 30000, 11)]),
+                 ("long-overlap", 32760, [("M", 5, 100)]), ("long-overlap-1", 32767, [("M", 1, 258)]), ("long-overlap-11", 32750, [("M", 11, 40)]),
+                 ("long-behind", 32700, [("M", 300, 258)]), ("long-source-at-end", 32700, [("M", 32700, 258)]),
+                 ("long-wrapped-source", 300, [("M", 400, 258)] + [("M", 1, 258)] * 126)]
+    for name, P, cross in crossings:
+        toks = fill_to(P) + cross
+        for kind in ("fixed", "dynamic"):
+            try:
+                blk = deflate.mszip_block(toks, None, [(kind, 0)], rng)
+            except Exception:
+                continue
+            cab, _ = minicab.build([(1, [(blk, 32768)])], [dict(name=b"z.bin", length=32768, offset=0, folder=0)])
+            for salv in (0, 1):
+                yield [f"file a.cab {cab.hex()}", "new cab", f"param i0 SALVAGE {salv}", "param i0 FIXMSZIP 1", "open i0 a.cab", "extract i0 h0 0 o0", "close i0 h0", "destroy i0"], \
+                      dict(family="mszip.window-overrun", crossing=name, huff=kind, salvage=salv)
+            kw = b"KWAJ\x88\xf0\x27\xd1" + struct.pack("<HHH", 4, 14, 0) + struct.pack("<H", len(blk)) + blk
+            yield [f"file f.kwj {kw.hex()}", "new kwaj", "open i0 f.kwj", "extract i0 h0 - out", "close i0 h0", "destroy i0"], \
+                  dict(family="mszip.window-overrun", crossing=name, huff=kind, container="kwaj")
+
 def generate(ctx):
     rng = ctx.rng
     for lines, meta in directed(rng):
+        yield lines, meta
+    for lines, meta in mszip_overrun(rng):
         yield lines, meta
     n = 60 if ctx.tier == "quick" else 3000
     for case in S.valid_cases(rng, n, avoid_defects=True):
@@ -64,7 +100,7 @@ def generate(ctx):
             c2 = dict(case, files=files)
             params = []
             if case["kind"] == "cab":
-                params = [("SALVAGE", rng.choice([0, 0, 1])), ("FIXMSZIP", rng.choice([0, 1])), ("DECOMPBUF", rng.choice([4, 16, 4096]))]
+                params = [("SALVAGE", rng.choice([0, 0, 1])), ("FIXMSZIP", rng.choice([0, 1])), ("DECOMPBUF", rng.choice([4, 5, 16, 17, 4096, 4097]))]
             fill = rng.choice(FILLS)
             lines = [f"fill {fill}"] + S.file_lines(c2) + S.generic_ops(c2, params)
             if case["kind"] == "chm":
